@@ -31,7 +31,10 @@ def neutralize(obj: Any) -> Any:
 
 class C12Engine(SimEngine):
     def run_case(self, case: dict) -> dict:
+        from ..common import h8
         from ..sim.interp import Run
+        # the same order of tasks in sets for the program and its fault-free twin
+        case = dict(case, salt=int(h8({"pools": case.get("pools"), "steps": case.get("steps")}), 16))
         res = Run(case).execute()
         out = {"violations": list(res.violations), "labels": list(res.labels), "stats": dict(res.stats),
                "inconclusive": res.inconclusive, "error": res.error}
